@@ -12,6 +12,15 @@ COMMON_ASSUME = [
 ]
 
 PROPS = {
+    "C01": dict(
+        level="exploration",
+        technique="runtime monitor: generated command sequences with clock advances run on the real CommandExecutor (through the production RESP decoder and command parser) in lock-step with an independent Redis reference model; reply and full visible keyspace compared after every step; deterministic shrinking",
+        level_text="Seeded sequences of 1-60 client commands over 4 keys (strings, counters, keys/expiry, lists, sets, hashes, sorted sets; boundary integers/indices/floats, every option combination, duplicate members, wrong arity) interleaved with clock advances that land on, just before and just after deadlines (active, lazy and TTL-manager expiry paths) are executed on a fresh CommandExecutor and on an independent model of Redis 7 semantics written from Redis behaviour. After every command the reply must satisfy the model's expectation and the visible keyspace (KEYS, TYPE, full value, PTTL through the public command set) must equal the model's. Three quarters of the sequences use arguments Redis accepts ('clean', so they run deep into the state space), one quarter is hostile. The first divergence of a sequence is shrunk and reported with the model branch that applies.",
+        level_note="the reference model (harness/src/model.rs) is the stand-in for Redis - no Redis binary exists in the sandbox; comparisons that are deliberately loose are: unordered replies as multisets, SPOP/RANDOMKEY as 'a member / a live key' with the model following the server's choice, floats by value (1e-9 relative), error replies by class, and when two independent faults are present at once (bad argument and wrong-typed key) either error is accepted; bitmaps, SORT, SCAN cursors, OBJECT/DEBUG/CONFIG are outside the model (covered for 'changes nothing on failure' by C17)",
+        rule="case = one command sequence with clock advances; distinct_nontrivial = distinct (command + option keywords, reply kind) pairs observed, counted by hashing; ops = commands compared (each with a full keyspace comparison)",
+        assumptions=COMMON_ASSUME + ["time is driven through CommandExecutor::set_time / update_time_readonly / evict_expired_direct with a fixed epoch; release flavour (debug assertions of the repo are not part of this property)"],
+        legs=[leg("model", "c01-model", "rel", quick=6, thorough=16)],
+    ),
     "C04": dict(
         level="exploration",
         technique="runtime monitor: production connection handler (hook H1) driven over a scripted stream with chosen read segmentation; replies decoded by an independent RESP decoder and compared with a one-command-at-a-time twin; malformed-frame corpus watched for silence, hang, crash",
@@ -35,6 +44,15 @@ PROPS = {
             leg("txn", "c05-txn", "rel", quick=2, thorough=16),
             leg("atomic", "c05-atomic", "rel", quick=2, thorough=8),
         ],
+    ),
+    "C17": dict(
+        level="exploration",
+        technique="runtime monitor: visible-keyspace snapshot (through the public command set) before and after every command that replies with an error or is classified read-only, over generated sequences of the full command set",
+        level_text="Sequences mixing the C01 generator (hostile arguments, wrong types, overflow, bad indices, invalid option combinations) with the rest of the command set (bitmaps, SORT +- STORE, OBJECT/DEBUG/CONFIG, SCAN family, two-key commands with either operand at fault, multi-element commands whose k-th element is bad, EVAL scripts that fail after a successful redis.call, stubs) run on the real CommandExecutor; around every command whose top-level reply is an error, and every command for which Command::is_read_only() is true, the visible keyspace and all TTLs must be identical before and after. Violations are shrunk to a minimal sequence.",
+        level_note="snapshot = KEYS *, TYPE, full read, PTTL per key at the same instant; lazy physical removal of already-expired keys is invisible and allowed; EXEC replies with an array and is C05's business",
+        rule="case = one command sequence; every failing or read-only command inside it is one check (counters failing_commands_checked / read_only_commands_checked); distinct_nontrivial = distinct (command name, error class | read-only) pairs checked",
+        assumptions=COMMON_ASSUME,
+        legs=[leg("unchanged", "c17-unchanged", "rel", quick=4, thorough=16)],
     ),
     "C15": dict(
         level="exploration",
